@@ -2,6 +2,7 @@
 from props import prop, case, H
 
 H('forkh', ['forkh.c'])
+H('forkp', ['forkp.c'])   # fork in a process that has never used call_rcu (only hash tables + synchronize_rcu)
 
 
 def _c(name, flavor, variant, scenarios, extra=(), cpus=4, timeout=420):
@@ -53,6 +54,13 @@ def c16(tier, seed):
         out.append(_c('%s-asan' % fl, fl, 'asan', 65 * k, extra=bp, timeout=t))
     out.append(_c('memb-multi-plain', 'memb', 'plain', 50 * k, extra=['--multi=1'], timeout=t))
     out.append(_c('memb-multi-asan', 'memb', 'asan', 25 * k, extra=['--multi=1'], timeout=t))
+    # pristine processes: AUTO_RESIZE table, no call_rcu helper exists at fork time
+    from props import case
+    for fl in ('memb', 'qsbr', 'bp') if tier == 'quick' else ('memb', 'mb', 'qsbr', 'bp'):
+        out.append(case('%s-pristine' % fl, 'forkp', fl, 'plain', ['--cfg=%s-pristine' % fl, '--rounds=%d' % (120 * k), '--tun-bp-sleep=1'],
+                        {}, cpus=3, timeout=t))
+    out.append(case('memb-pristine-asan', 'forkp', 'memb', 'asan', ['--cfg=memb-pristine-asan', '--rounds=%d' % (60 * k)], {}, cpus=3,
+                    timeout=t))
     if tier != 'quick':
         out.append(_c('memb-builtins', 'memb', 'builtins', 60 * k, timeout=t))
         out.append(_c('bp-builtins', 'bp', 'builtins', 60 * k, extra=['--tun-bp-sleep=1'], timeout=t))
